@@ -20,6 +20,7 @@ import Genq.Model.Codec
 import Genq.Model.InputClosure
 import Genq.Model.CodecIn
 import Genq.Model.Errors
+import Genq.Model.Lines
 open Lean
 namespace Genq.Driver
 
@@ -333,6 +334,19 @@ def opErrors (op : String) (j : Json) : Except String Json := do
   | "errors.errorf" =>
     let e ← parseErr (← j.getObjVal? "err")
     return Json.mkObj [("text", str e.text)]
+  | _ => throw s!"unknown op {op}"
+
+def opLines (op : String) (j : Json) : Except String Json := do
+  match op with
+  | "lines.info" =>
+    -- s: the source text; offsets: positions (in characters) of token starts.  Returns the lexer's line number of
+    -- each offset, the lexer's lines and the line slice of parsePrecedingComment (fixed and old)
+    let s := (← getStr j "s").toList
+    let offs ← (← getArr j "offsets").toList.mapM fun x => x.getNat?
+    let strs (ls : List (List Char)) : Json := Json.arr (ls.map (fun l => Json.str (str l))).toArray
+    return Json.mkObj [
+      ("lineOf", Json.arr (offs.map (fun o => (toJson (Lines.lexBreaks (s.take o) + 1 : Nat)))).toArray),
+      ("lex", strs (Lines.lexLines s)), ("fixed", strs (Lines.linesFixed s)), ("old", strs (Lines.linesOld s))]
   | _ => throw s!"unknown op {op}"
 
 def opConfig (op : String) (j : Json) : Except String Json := do
@@ -687,6 +701,7 @@ def dispatch (j : Json) : Json :=
     else if op.startsWith "doc." then opDoc op j
     else if op.startsWith "files." then opFiles op j
     else if op.startsWith "errors." then opErrors op j
+    else if op.startsWith "lines." then opLines op j
     else if op.startsWith "config." then opConfig op j
     else if op.startsWith "conv." then opConv op j
     else if op.startsWith "types." then opTypes op j
